@@ -287,7 +287,13 @@ class GeneralizedSubsetGenerator(_pyDOE_AnalysisGenerator):
         ndarray
             The design matrix as a size x levels array of indices.
         """
-        return self._gsd(levels=self._get_all_levels(), reduction=self._reduction, n=self._n)
+        doe = self._gsd(levels=self._get_all_levels(), reduction=self._reduction, n=self._n)
+
+        # for n > 1, gsd returns a list of n complementary designs: run all of them
+        if isinstance(doe, (list, tuple)):
+            doe = np.vstack(doe)
+
+        return doe
 
 
 class PlackettBurmanGenerator(_pyDOE_AnalysisGenerator):
